@@ -301,3 +301,9 @@ if __name__ == '__main__':
                 zz = z3.is_true(z3.simplify(matches(kind, pat, z3.StringVal(subj), fl)))
                 n += 1; bad += (py != zz)
         print(pat, kind, 'subjects', n, 'disagreements', bad)
+
+
+def full_regex(pattern, flags=0):
+    """the z3 regular expression that `in_re(s, pattern)` (re.fullmatch) tests membership in -- the same term, for library lemmas"""
+    o, c, groups, a_start, is_bytes = translate(pattern, flags)
+    return alt(o, c)
